@@ -144,6 +144,31 @@ func zzDrain6(c *Conn) int {
 	return n
 }
 
+// zzAppRecord6 builds an authentic epoch-1 application record with the given sequence number in one of the two DTLS 1.2
+// framings: plain (content type application_data) or, when the connection negotiated a connection ID for its receive
+// direction, tls12_cid (outer content type 25, the CID after the sequence number, inner plaintext = content || real
+// type, RFC 9146 section 4). zzCID6Setup makes the connection expect the CID.
+var zzCID6 = []byte{0xc1, 0xd6}
+
+func zzCID6Setup(c *Conn) bool {
+	if zzsymChoice("cid_framing", 2) == 0 {
+		return false
+	}
+	dtlsstate.CommonState(c.state).SetLocalConnectionID(zzCID6)
+	return true
+}
+
+func zzAppRecord6(cid bool, seq uint64) []byte {
+	if !cid {
+		h := recordlayer.Header{ContentType: protocol.ContentTypeApplicationData, Version: protocol.Version1_2, Epoch: 1, SequenceNumber: seq, ContentLen: 1}
+		raw, _ := h.Marshal()
+		return append(raw, 0x55)
+	}
+	h := recordlayer.Header{ContentType: protocol.ContentTypeConnectionID, Version: protocol.Version1_2, Epoch: 1, SequenceNumber: seq, ContentLen: 2, ConnectionID: zzCID6}
+	raw, _ := h.Marshal()
+	return append(raw, 0x55, byte(protocol.ContentTypeApplicationData))
+}
+
 // DTLS 1.2 receive path with the CONFIGURED replay window W (128, 48, 1; thorough adds 64, 200): two authentic
 // application-data records of the same epoch with arbitrary 48-bit sequence numbers s1 then s2 arrive. Proved: the
 // second is delivered exactly when it is not a repetition and (it is newer or fewer than W behind s1); a repetition is
@@ -156,11 +181,8 @@ func zzConnWindow12() {
 	common := dtlsstate.CommonState(c.state)
 	common.LocalVersion = protocol.Version1_2
 	common.SetRemoteEpoch(1)
-	mk := func(seq uint64) []byte {
-		h := recordlayer.Header{ContentType: protocol.ContentTypeApplicationData, Version: protocol.Version1_2, Epoch: 1, SequenceNumber: seq, ContentLen: 1}
-		raw, _ := h.Marshal()
-		return append(raw, 0x55)
-	}
+	cidFraming := zzCID6Setup(c)
+	mk := func(seq uint64) []byte { return zzAppRecord6(cidFraming, seq) }
 	s1, s2 := zzsymU64("seq1"), zzsymU64("seq2")
 	zzsymAssume(s1 <= recordlayer.MaxSequenceNumber)
 	zzsymAssume(s2 <= recordlayer.MaxSequenceNumber)
@@ -199,11 +221,8 @@ func zzConnReplayAfterShift12() {
 	common := dtlsstate.CommonState(c.state)
 	common.LocalVersion = protocol.Version1_2
 	common.SetRemoteEpoch(1)
-	mk := func(seq uint64) []byte {
-		h := recordlayer.Header{ContentType: protocol.ContentTypeApplicationData, Version: protocol.Version1_2, Epoch: 1, SequenceNumber: seq, ContentLen: 1}
-		raw, _ := h.Marshal()
-		return append(raw, 0x55)
-	}
+	cidFraming := zzCID6Setup(c)
+	mk := func(seq uint64) []byte { return zzAppRecord6(cidFraming, seq) }
 	s1, s2 := zzsymU64("seq1"), zzsymU64("seq2")
 	zzsymAssume(s2 <= recordlayer.MaxSequenceNumber)
 	zzsymAssume(s2 > s1)
@@ -275,11 +294,8 @@ func zzConnReplayUnaffectedByOtherRecords12() {
 	common.LocalVersion = protocol.Version1_2
 	common.SetRemoteEpoch(1)
 	suite, _ := common.CipherSuite.(*zzSuite6)
-	mk := func(seq uint64) []byte {
-		h := recordlayer.Header{ContentType: protocol.ContentTypeApplicationData, Version: protocol.Version1_2, Epoch: 1, SequenceNumber: seq, ContentLen: 1}
-		raw, _ := h.Marshal()
-		return append(raw, 0x55)
-	}
+	cidFraming := zzCID6Setup(c)
+	mk := func(seq uint64) []byte { return zzAppRecord6(cidFraming, seq) }
 	s1 := zzsymU64("seq1")
 	zzsymAssume(s1 <= recordlayer.MaxSequenceNumber-64)
 	from := &net.UDPAddr{Port: 1}
